@@ -84,8 +84,9 @@ def shards(tier):
     return out
 
 
-def _pars_redundant(fst, src, path):
-    """Does `src` with the grouping parentheses of the node at `path` blanked out parse to the same tree? (reference for unpar())"""
+def _pars_redundant(fst, src, path, node=False):
+    """Does `src` with the grouping parentheses (node=True: also the own delimiters of the sequence) of the node at `path` blanked
+    out parse to the same tree? (reference for unpar())"""
     from ..fstnav import node_at
     from .. import extents as X
     try:
@@ -93,12 +94,14 @@ def _pars_redundant(fst, src, path):
         if isinstance(n.a, ast.Starred):
             n = n.a.value.f
         pl = n.pars()
-        if not getattr(pl, 'n', 0):
-            return True
         S = X.Src(src)
-        ps, pe = S.off(pl.ln, pl.col), S.off(pl.end_ln, pl.end_col)
-        ns, ne = S.off(n.ln, n.col), S.off(n.end_ln, n.end_col)
         out = list(src)
+        ns, ne = S.off(n.ln, n.col), S.off(n.end_ln, n.end_col)
+        if node and src[ns] in '([' and src[ne - 1] in ')]' and (n.is_parenthesized_tuple() or n.is_delimited_matchseq()):
+            out[ns] = out[ne - 1] = ' '
+        elif not getattr(pl, 'n', 0):
+            return True
+        ps, pe = S.off(pl.ln, pl.col), S.off(pl.end_ln, pl.end_col)
         for a, b, t, _ in S.toks:
             if (t == '(' and ps <= a < ns) or (t == ')' and ne <= a < pe):
                 out[a] = ' '
@@ -175,7 +178,7 @@ def run_shard(desc, tier, res):
     def on_state(root, pre, hist, cid, c2):
         res.traces += 1
         bad = live_vs_parse(root, 'Module')
-        if bad and hist[-1]['op'] == 'unpar' and not _pars_redundant(fst, pre[2], hist[-1]['path']):
+        if bad and hist[-1]['op'] == 'unpar' and not _pars_redundant(fst, pre[2], hist[-1]['path'], hist[-1].get('node')):
             # unpar() removes what it is told to, "no higher level parsability validation": parentheses that the source needs
             # (line structure, precedence, 'return (yield)', '(x): int') are the caller's responsibility
             res.outcomes['unpar-of-needed-parentheses-not-judged'] += 1
